@@ -89,6 +89,8 @@ struct Case
     int late = 0; // the last `late` entries are declared only after a first parse() on the object
     int moved = 0; // 1: the parser is move-constructed before parsing, 2: move-assigned onto a used parser
     bool argc0 = false; // parse(0, {NULL}): the empty argument vector without even a program name
+    int reconfig = 0;   // bit 0: greedy mode is first set to the opposite, bit 1: the accepted count is first
+                        // set to something else - the last call of a setter decides
 
     template <class A>
     void io(A& a)
@@ -104,6 +106,7 @@ struct Case
         a("late", late);
         a("moved", moved);
         a("argc0", argc0);
+        a("reconfig", reconfig);
     }
 };
 
@@ -161,7 +164,9 @@ inline std::string describe_decl(const Case& c)
         if (e.group % 3)
             o << " group=g" << e.group % 3;
     }
-    o << "} positionals=" << c.limit << (c.greedy ? " greedy" : "");
+    o << "} positionals=" << c.limit << (c.greedy ? " greedy" : "")
+      << (c.reconfig & 1 ? " [greedy mode set to the opposite first]" : "")
+      << (c.reconfig & 2 ? " [accepted count set to another value first]" : "");
     if (c.late)
         o << " [last " << c.late << " declared after a first parse]";
     if (c.moved)
@@ -691,12 +696,23 @@ inline std::unique_ptr<nitro::options::parser> build_parser(const Case& c,
 {
     auto p = std::make_unique<nitro::options::parser>("prog", "about");
     declare_entries(p.get(), c, 0, std::min(upto, c.e.size()));
+    if (c.reconfig & 1)
+        p->greedy_postionals(!c.greedy);
+    if (c.reconfig & 2)
+    {
+        if (c.limit < 0)
+            p->accept_positionals(3);
+        else
+            p->accept_positionals();
+    }
     if (c.limit < 0)
         p->accept_positionals();
-    else if (c.limit > 0)
+    else if (c.limit > 0 || (c.reconfig & 2))
         p->accept_positionals(static_cast<std::size_t>(c.limit));
     if (c.greedy)
         p->greedy_postionals();
+    else if (c.reconfig & 1)
+        p->greedy_postionals(false);
     return p;
 }
 
